@@ -1,6 +1,6 @@
 import Driver.Common
 import ScionVerif.Model.AesCmac
-import ScionVerif.Spec.RefRouter
+import ScionVerif.Model.SimPacket
 /-! line-protocol driver for the data-plane models (C13, C01): `sim` = model of pocketscion, `ref` = reference router -/
 open ScionVerif.Router ScionVerif.Generated.Router Driver
 
@@ -35,10 +35,29 @@ def parsePath (ns : List Nat) : Option Path :=
 
 def b2n (b : Bool) : Nat := if b then 1 else 0
 
+/-- packet of any path kind: `std <path>` | `ohp <info 4> <hop0 6> <hop1 6>` | `empty` | `unsupported` -/
+def parsePkt : List String → Option Pkt
+  | "std" :: rest => (nats rest).bind parsePath |>.map Pkt.std
+  | "ohp" :: rest =>
+    match nats rest with
+    | some [c, pr, s, t, a0, b0, e0, ci0, ce0, m0, a1, b1, e1, ci1, ce1, m1] =>
+      some (.oneHop ⟨⟨c != 0, pr != 0, s, t⟩, ⟨a0 != 0, b0 != 0, e0, ci0, ce0, m0⟩, ⟨a1 != 0, b1 != 0, e1, ci1, ce1, m1⟩⟩)
+    | _ => none
+  | ["empty"] => some .empty
+  | ["unsupported"] => some .unsupported
+  | _ => none
+
 def showPath (p : Path) : String :=
   let is := p.infos.map (fun i => s!" {b2n i.consDir} {b2n i.peer} {i.segId} {i.ts}")
   let hs := p.hops.map (fun h => s!" {b2n h.inAlert} {b2n h.egAlert} {h.exp} {h.consIngress} {h.consEgress} {h.mac}")
   s!"{p.currInf} {p.currHf} {p.seg0} {p.seg1} {p.seg2} {p.infos.length} {p.hops.length}" ++ String.join is ++ String.join hs
+
+def showHop (h : Hop) : String := s!" {b2n h.inAlert} {b2n h.egAlert} {h.exp} {h.consIngress} {h.consEgress} {h.mac}"
+def showPkt : Pkt → String
+  | .std p => "std " ++ showPath p
+  | .oneHop o => s!"ohp {b2n o.info.consDir} {b2n o.info.peer} {o.info.segId} {o.info.ts}" ++ showHop o.hop0 ++ showHop o.hop1
+  | .empty => "empty"
+  | .unsupported => "unsupported"
 
 def showErr : VErr → String
   | .ppConsIngress => "pp_cons_ingress" | .ppConsEgress => "pp_cons_egress" | .invalidPath => "invalid_path"
@@ -94,6 +113,28 @@ def step (st : St) : List String → St × String
         else (st, "bad-op")
       | none => (st, "bad-op")
     | _ => (st, "bad-op")
+  | "routep" :: which :: localAs :: dstAs :: ing :: now :: ign :: pk =>
+    match nats [localAs, dstAs, ing, now, ign], parsePkt pk with
+    | some [localAs, dstAs, ing, now, ign], some k =>
+      match st.topo.asInfo localAs with
+      | some a =>
+        let r := if which == "sim" then routePkt macf localAs dstAs k ing now a.key (st.topo.lookup localAs) (ign != 0)
+                 else Ref.processPkt macf localAs dstAs k ing now a.key (st.topo.lookup localAs) (ign != 0)
+        if which == "sim" || which == "ref" then (st, s!"{showAction r.2} ; {showPkt r.1}") else (st, "bad-op")
+      | none => (st, "bad-op")
+    | _, _ => (st, "bad-op")
+  | "walkp" :: which :: startAs :: ing :: dstAs :: now :: ign :: pk =>
+    match nats [startAs, ing, dstAs, now, ign], parsePkt pk with
+    | some [startAs, ing, dstAs, now, ign], some k =>
+      let fuel := (match k with | .std p => p.hopCount | _ => 2) + 2
+      let r := if which == "sim" then walkP macf st.topo dstAs now (ign != 0) fuel startAs ing k 0
+               else Ref.walkP macf st.topo dstAs now (ign != 0) fuel startAs ing k 0
+      if which == "sim" || which == "ref" then
+        match r with
+        | some (v, _, n) => (st, s!"{showVerdict v} steps {n}")
+        | none => (st, "out-of-fuel")
+      else (st, "bad-op")
+    | _, _ => (st, "bad-op")
   | ["mac", key, beta, ts, exp, ci, ce] =>
     match parseHex key, nats [beta, ts, exp, ci, ce] with
     | some k, some [b, t, e, i, g] => (st, toString (macf k b t e i g))
